@@ -864,6 +864,23 @@ def first_diff(a, b, path=""):
     return None if a == b else f"{path}: {a!r} vs {b!r}"[:300]
 
 
+def tables_current():
+    """is coq/gen/Gen_tables_params.v (and the compiled model) the one generated from common.REPO ?"""
+    import hashlib
+    gen = os.path.join(COQ, "gen", "Gen_tables_params.v")
+    try:
+        head = open(gen).read(1200)
+        for m in ("core", "mock", "io"):
+            src = os.path.join(common.REPO, "src", "pydrex", m + ".py")
+            if hashlib.sha256(open(src, "rb").read()).hexdigest() not in head:
+                return False
+        vo = os.path.join(COQ, "Model_config.vo")
+        gvo = os.path.join(COQ, "gen", "Gen_tables_params.vo")
+        return (os.path.getmtime(gvo) >= os.path.getmtime(gen) and os.path.getmtime(vo) >= os.path.getmtime(gvo))
+    except OSError:
+        return False
+
+
 def correspondence(chk, impl, wd, cases, V):
     trees, paths, results = [], [], []
     for c in cases:
@@ -874,7 +891,17 @@ def correspondence(chk, impl, wd, cases, V):
         trees.append(tomllib.load(open(p, "rb")))
         c["impl"], _ = impl.run(p, trees[-1])
         results.append(c["impl"])
-    agree = run_model_compare(trees, results, V)
+    # the generated tables are shared by every process building in /verif/coq: evaluate the
+    # model under the build lock, and only against tables generated from *our* source root
+    agree = None
+    for _ in range(4):
+        with common.Lock():
+            if tables_current():
+                agree = run_model_compare(trees, results, V)
+                break
+        common.build()
+    if agree is None:
+        raise RuntimeError("coq/gen/Gen_tables_params.v keeps being regenerated from another source root")
     bad = []
     hist = chk.cov.setdefault("histogram", {})
     outc = chk.cov.setdefault("outcomes", {})
@@ -896,7 +923,8 @@ def correspondence(chk, impl, wd, cases, V):
         sub = bad[:20]
         idx = {id(c): k for k, c in enumerate(cases)}
         try:
-            ms = run_model([trees[idx[id(c)]] for c, _ in sub], V)
+            with common.Lock():
+                ms = run_model([trees[idx[id(c)]] for c, _ in sub], V)
         except RuntimeError as e:
             ms = [["err", f"(model output unavailable: {e})"[:200]]] * len(sub)
         for k, ((c, _), m) in enumerate(zip(sub, ms)):
